@@ -15,7 +15,7 @@ RULE = ("request specs: 9 methods x unicode paths over an alphabet with reserved
         "query dicts and form dicts whose keys/values contain & = + % # ? ; space and non-ASCII x header sets (token names in "
         "mixed case, latin-1 values with ': ', blanks, empty) x raw / JSON / form bodies, with and without explicit "
         "Content-Length; built by the real Requester, parsed by the real Requestant + Server.buildEnviron; a second stream "
-        "leaves the well-formed domain (path with ? or #, // prefix, control characters, CR/LF in header values) where only "
+        "each request is followed by 0-3 rebuild() calls on the same Requester (no arguments, or only some of method / path / qargs / headers / body, the rest carried over), every build parsed and compared; a further stream leaves the well-formed domain (path with ? or #, // prefix, control characters, CR/LF in header values) where only "
         "model/implementation agreement is compared. Non-trivial: a reserved or non-ASCII character in path, key, value or header value")
 MODELLED = ["urllib.parse.quote/quote_plus/unquote/unquote_plus/urlsplit/parse_qsl and UTF-8 coding (Gallina functions; swept against CPython in C16's and this driver's extra())",
             "json.dumps of the data argument (external: the encoded bytes are part of the request spec)",
@@ -50,39 +50,91 @@ class _Remoter:
     tymeout = 0.0
 
 
-def run_impl(case):
+def _observe(wire, is_form):
+    """parse one built request with the real Requestant + Server.buildEnviron"""
     from hio.core.http import serving
-    obs = {"built": None, "parsed": None}
+    obs = {"built": bytes(wire).hex(), "parsed": None}
+    rq = serving.Requestant(msg=bytearray(wire), remoter=_Remoter())
+    try:
+        for _ in range(4):
+            if rq.parser:
+                rq.parse()
+    except Exception as ex:
+        obs["parse_exc"] = type(ex).__name__ + ": " + str(ex)[:100]
+    if rq.ended and not rq.errored and "parse_exc" not in obs:
+        srv = serving.Server(port=PORT)
+        env = srv.buildEnviron(rq)
+        obs["parsed"] = {"method": rq.method, "path": rq.path, "query": rq.query,
+                         "headers": [[k, v] for k, v in rq.headers.items()], "body": bytes(rq.body).hex(),
+                         "leftover": len(rq.msg)}
+        obs["env"] = {"PATH_INFO": env["PATH_INFO"], "QUERY_STRING": env["QUERY_STRING"],
+                      "CONTENT_LENGTH": env.get("CONTENT_LENGTH"), "REQUEST_METHOD": env["REQUEST_METHOD"],
+                      "http": sorted([k, v] for k, v in env.items() if k.startswith("HTTP_")),
+                      "input": env["wsgi.input"].read().hex()}
+        obs["qsl"] = [list(x) for x in parse_qsl(env["QUERY_STRING"], keep_blank_values=True)]
+        obs["form_qsl"] = ([list(x) for x in parse_qsl(bytes(rq.body).decode("latin-1"), keep_blank_values=True)]
+                           if is_form else [])
+    else:
+        obs["error"] = rq.error
+    return obs
+
+
+def _rebuild_args(op):
+    from hio import help
+    kw = {}
+    for f in ("method", "path"):
+        if f in op:
+            kw[f] = op[f]
+    if "qargs" in op:
+        kw["qargs"] = dict((k, v) for k, v in op["qargs"])
+    if "headers" in op:
+        kw["headers"] = help.Hict([(k, v) for k, v in op["headers"]])
+    if "body" in op:
+        b = op["body"]
+        if b[0] == "raw":
+            kw["body"] = bytes.fromhex(b[1])
+        elif b[0] == "json":
+            kw["data"] = b[1]
+        else:
+            kw["fargs"] = dict((k, v) for k, v in b[1])
+    return kw
+
+
+def specs(case):
+    """The request every build of the history is asked to send (independent mirror of the Requester's
+    documented differential semantics: method/path/qargs/headers carry over, body/data/fargs do not;
+    the content-type a JSON / form build stores in .headers stays)."""
+    cur = {k: case[k] for k in ("method", "path", "qargs", "headers", "body")}
+    out = [dict(cur)]
+    for op in case.get("ops", []):
+        cur = dict(cur, headers=_final_headers(cur))
+        for f in ("method", "path", "qargs", "headers"):
+            if f in op:
+                cur[f] = op[f]
+        cur["body"] = op.get("body", ["raw", ""])
+        out.append(dict(cur))
+    return out
+
+
+def run_impl(case):
+    steps = []
+    sp = specs(case)
     with Recorder() as rec:
-        try:
-            wire = _requester(case).build()
-        except Exception as ex:
-            obs["build_exc"] = type(ex).__name__ + ": " + str(ex)[:100]
-            wire = None
-        if wire is not None:
-            obs["built"] = bytes(wire).hex()
-            rq = serving.Requestant(msg=bytearray(wire), remoter=_Remoter())
+        rq = None
+        for i, spec in enumerate(sp):
             try:
-                for _ in range(4):
-                    if rq.parser:
-                        rq.parse()
+                if i == 0:
+                    rq = _requester(case)
+                    wire = rq.build()
+                else:
+                    wire = rq.rebuild(**_rebuild_args(case["ops"][i - 1]))
             except Exception as ex:
-                obs["parse_exc"] = type(ex).__name__ + ": " + str(ex)[:100]
-            if rq.ended and not rq.errored and "parse_exc" not in obs:
-                srv = serving.Server(port=PORT)
-                env = srv.buildEnviron(rq)
-                obs["parsed"] = {"method": rq.method, "path": rq.path, "query": rq.query,
-                                 "headers": [[k, v] for k, v in rq.headers.items()], "body": bytes(rq.body).hex(),
-                                 "leftover": len(rq.msg)}
-                obs["env"] = {"PATH_INFO": env["PATH_INFO"], "QUERY_STRING": env["QUERY_STRING"],
-                              "CONTENT_LENGTH": env.get("CONTENT_LENGTH"), "REQUEST_METHOD": env["REQUEST_METHOD"],
-                              "http": sorted([k, v] for k, v in env.items() if k.startswith("HTTP_")),
-                              "input": env["wsgi.input"].read().hex()}
-                obs["qsl"] = [list(x) for x in parse_qsl(env["QUERY_STRING"], keep_blank_values=True)]
-                obs["form_qsl"] = ([list(x) for x in parse_qsl(bytes(rq.body).decode("latin-1"), keep_blank_values=True)]
-                                   if case["body"][0] == "form" else [])
-            else:
-                obs["error"] = rq.error
+                steps.append({"built": None, "parsed": None, "build_exc": type(ex).__name__ + ": " + str(ex)[:100]})
+                if rq is None:
+                    break
+                continue
+            steps.append(_observe(wire, spec["body"][0] == "form" and spec["method"] != "GET"))
+    obs = {"steps": steps}
     obs.update(rec.tables())
     return obs
 
@@ -147,8 +199,16 @@ def wf(case):
 
 
 def oracle(case, obs):
-    if not wf(case):
-        return None
+    for i, (spec, so) in enumerate(zip(specs(case), obs["steps"])):
+        if not wf(spec):
+            return None          # outside the domain from here on (stored attributes no longer specified)
+        why = _oracle_step(spec, so)
+        if why:
+            return f"build #{i + 1} of the history: {why}"
+    return None
+
+
+def _oracle_step(case, obs):
     # explicit Content-Length must be right for the request to be well formed: the generator guarantees it
     if obs["built"] is None:
         return f"Requester.build raised {obs.get('build_exc')}"
@@ -174,7 +234,7 @@ def oracle(case, obs):
     body = bytes.fromhex(p["body"])
     if eb is not None and body != eb:
         return f"body {body[:60]!r} != {eb[:60]!r}"
-    if eb is None and obs["form_qsl"] != [list(x) for x in case["body"][1]]:
+    if eb is None and case["method"] != "GET" and obs["form_qsl"] != [list(x) for x in case["body"][1]]:
         return f"form fields {obs['form_qsl']!r} != {case['body'][1]!r} (body {body[:80]!r})"
     if env["input"] != p["body"] or p["leftover"] != 0:
         return "wsgi.input differs from the parsed body or bytes were left over"
@@ -191,6 +251,10 @@ RESERVED = set(" %&=+#?;:@/'\"<>[]{}|\\^`,$!*()~")
 
 
 def nontrivial(case, obs):
+    return any(_nontrivial_spec(sp) for sp in specs(case))
+
+
+def _nontrivial_spec(case):
     texts = [case["path"][1:]] + [x for kv in case["qargs"] for x in kv] + [v for k, v in case["headers"]]
     if case["body"][0] == "form":
         texts += [x for kv in case["body"][1] for x in kv]
@@ -203,31 +267,50 @@ def _pairs(l):
     return coq_list([f"({_s(k)}, {_s(v)})" for k, v in l], "HttpReqUrl.ustr * HttpReqUrl.ustr")
 
 
-def to_coq(case, obs):
-    b = case["body"]
+def _body_term(b):
     if b[0] == "raw":
-        body = f"(HttpReq.Raw {coq_bytes(bytes.fromhex(b[1]))})"
-    elif b[0] == "json":
-        body = f"(HttpReq.Json {coq_bytes(_json_bytes(b[1]))})"
-    else:
-        body = f"(HttpReq.Form {_pairs(b[1])})"
-    req = ("{| HttpReq.q_method := %s; HttpReq.q_path := %s; HttpReq.q_qargs := %s; HttpReq.q_headers := %s; HttpReq.q_body := %s |}"
-           % (_s(case["method"]), _s(case["path"]), _pairs(case["qargs"]), _pairs(case["headers"]), body))
-    p = obs["parsed"]
+        return f"(HttpReq.Raw {coq_bytes(bytes.fromhex(b[1]))})"
+    if b[0] == "json":
+        return f"(HttpReq.Json {coq_bytes(_json_bytes(b[1]))})"
+    return f"(HttpReq.Form {_pairs(b[1])})"
+
+
+def _op_term(op):
+    PT = "list (HttpReqUrl.ustr * HttpReqUrl.ustr)"
+    o = lambda f, g, ty: coq_option(op.get(f), g, ty)
+    b = op.get("body")
+    body = f"(Some {coq_bytes(bytes.fromhex(b[1]))})" if b and b[0] == "raw" else "(@None bytes)"
+    data = f"(Some {coq_bytes(_json_bytes(b[1]))})" if b and b[0] == "json" else "(@None bytes)"
+    fargs = f"(Some {_pairs(b[1])})" if b and b[0] == "form" else f"(@None ({PT}))"
+    return ("{| HttpReq.a_method := %s; HttpReq.a_path := %s; HttpReq.a_qargs := %s; HttpReq.a_headers := %s; "
+            "HttpReq.a_body := %s; HttpReq.a_data := %s; HttpReq.a_fargs := %s |}"
+            % (o("method", _s, "HttpReqUrl.ustr"), o("path", _s, "HttpReqUrl.ustr"), o("qargs", _pairs, PT),
+               o("headers", _pairs, PT), body, data, fargs))
+
+
+def _step_term(so):
+    p = so["parsed"]
     if p is None:
         parsed = "None"
         pi, qs, cl, qsl, fq = _s(""), _s(""), "None", _pairs([]), _pairs([])
     else:
         parsed = f"(Some ({_s(p['method'])}, {_s(p['path'])}, {_s(p['query'])}, {_pairs(p['headers'])}, {coq_bytes(bytes.fromhex(p['body']))}))"
-        env = obs["env"]
+        env = so["env"]
         pi, qs = _s(env["PATH_INFO"]), _s(env["QUERY_STRING"])
         cl = "None" if env["CONTENT_LENGTH"] is None else f"(Some {_s(env['CONTENT_LENGTH'])})"
-        qsl, fq = _pairs(obs["qsl"]), _pairs(obs["form_qsl"])
-    built = "None" if obs["built"] is None else f"(Some {coq_bytes(bytes.fromhex(obs['built']))})"
-    return ("{| HttpReq.y_req := %s; HttpReq.y_host := %s; HttpReq.y_port := %s; HttpReq.y_ip6 := %s; HttpReq.y_nfkc := %s; "
-            "HttpReq.y_built := %s; HttpReq.y_parsed := %s; HttpReq.y_path_info := %s; HttpReq.y_query_string := %s; "
-            "HttpReq.y_content_length := %s; HttpReq.y_qsl := %s; HttpReq.y_form_qsl := %s |}"
-            % (req, _s(HOST), coq_N(PORT), _tbl(obs["ip6"]), _tbl(obs["nfkc"]), built, parsed, pi, qs, cl, qsl, fq))
+        qsl, fq = _pairs(so["qsl"]), _pairs(so["form_qsl"])
+    built = "None" if so["built"] is None else f"(Some {coq_bytes(bytes.fromhex(so['built']))})"
+    return ("{| HttpReq.y_built := %s; HttpReq.y_parsed := %s; HttpReq.y_path_info := %s; HttpReq.y_query_string := %s; "
+            "HttpReq.y_content_length := %s; HttpReq.y_qsl := %s; HttpReq.y_form_qsl := %s |}" % (built, parsed, pi, qs, cl, qsl, fq))
+
+
+def to_coq(case, obs):
+    req = ("{| HttpReq.q_method := %s; HttpReq.q_path := %s; HttpReq.q_qargs := %s; HttpReq.q_headers := %s; HttpReq.q_body := %s |}"
+           % (_s(case["method"]), _s(case["path"]), _pairs(case["qargs"]), _pairs(case["headers"]), _body_term(case["body"])))
+    return ("{| HttpReq.y_req := %s; HttpReq.y_ops := %s; HttpReq.y_host := %s; HttpReq.y_port := %s; HttpReq.y_ip6 := %s; "
+            "HttpReq.y_nfkc := %s; HttpReq.y_steps := %s |}"
+            % (req, coq_list([_op_term(o) for o in case.get("ops", [])], "HttpReq.rargs"), _s(HOST), coq_N(PORT),
+               _tbl(obs["ip6"]), _tbl(obs["nfkc"]), coq_list([_step_term(x) for x in obs["steps"]], "HttpReq.stepobs")))
 
 
 # --------------------------------------------------------------------------- generators
@@ -308,13 +391,35 @@ def _spoil(rng, case):
     return case
 
 
+def _op(rng):
+    """arguments of one rebuild(): nothing, or only some fields (the rest is carried over)"""
+    k = rng.random()
+    op = {}
+    if k < 0.3:
+        return op                                    # rebuild() with no arguments: resend
+    new = _spec(rng)
+    for f in ("method", "path", "qargs", "headers"):
+        if rng.random() < 0.35:
+            op[f] = new[f]
+    if "headers" in op:
+        op["headers"] = [h for h in op["headers"] if h[0].lower() != "content-length"]
+    if rng.random() < 0.5:
+        op["body"] = new["body"]
+    return op
+
+
 def generate(rng, tier):
-    n = 500 if tier == "quick" else 9000
+    n = 500 if tier == "quick" else 6000
     out = []
     for i in range(n):
         c = _spec(rng)
         if rng.random() < 0.12:
             c = _spoil(rng, c)
+        nops = rng.choice([0, 1, 1, 2, 3])
+        if nops:
+            # an explicit Content-Length would be carried over to bodies of another length
+            c["headers"] = [h for h in c["headers"] if h[0].lower() != "content-length"]
+            c["ops"] = [_op(rng) for _ in range(nops)]
         out.append(c)
     return out
 
@@ -336,10 +441,19 @@ def directed():
         R(method="OPTIONS", path="/;a=b:c@d,e$f!g*h(i)'"),
         R(path="/x?y=1#z"), R(path="//h/x"), R(path="/a\nb"), R(path="x"),
         R(method="POST", path="/bad", headers=[["X-Bad", "a\r\nInjected: 1"]]),
+        # histories on one Requester: attributes carried over must mean what they meant before
+        R(path="/docs/annual report.txt", ops=[{}, {}, {}]),
+        R(path="/é/100%/%41", qargs=[["k v", "a&b"]], ops=[{}, {"method": "POST", "body": ["raw", b"x y".hex()]}, {}]),
+        R(method="POST", path="/a b", headers=[["X-A", "1"]], body=["json", {"a": 1}], ops=[{"body": ["raw", b"raw".hex()]}, {"path": "/c d"}, {}]),
+        R(method="PUT", path="/f g", body=["form", [["a&b", "c=d"]]], ops=[{"qargs": [["q ", "%"]]}, {"headers": [["x-UPPER", "v"]], "body": ["form", [["k", "é"]]]}]),
+        R(path="/x y", ops=[{"method": "DELETE"}, {"path": "/€ %25"}, {"qargs": []}]),
     ]
 
 
 def shrink(case):
+    ops = case.get("ops", [])
+    for i in range(len(ops)):
+        yield dict(case, ops=ops[:i] + ops[i + 1:])
     for f in ("qargs", "headers"):
         for i in range(len(case[f])):
             yield dict(case, **{f: case[f][:i] + case[f][i + 1:]})
@@ -353,8 +467,10 @@ def shrink(case):
 def distribution(cases, obs):
     d = {}
     for c in cases:
-        k = c["body"][0] + ("" if wf(c) else ":outside-domain")
+        k = c["body"][0] + ("" if all(wf(sp) for sp in specs(c)) else ":outside-domain") + ":builds=%d" % (1 + len(c.get("ops", [])))
         d[k] = d.get(k, 0) + 1
+        if any("path" not in op for op in c.get("ops", [])):
+            d["history-with-carried-over-path"] = d.get("history-with-carried-over-path", 0) + 1
     return d
 
 
